@@ -30,6 +30,7 @@ func init() {
 			{Name: "comparestr-other-parser", File: "semantic/version-packagist.go", Old: "	return v.compare(parsePackagistVersion(str)), nil", New: "	return v.compare(packagistVersion{Original: str, Components: strings.Split(str, \".\")}), nil", Rule: "D2-parse-agreement", Site: "packagistVersion"},
 			{Name: "mirror-broken", File: "semantic/version-redhat.go", Old: "	if diff := compareRedHatComponents(v.release, w.release); diff != 0 {", New: "	if diff := compareRedHatComponents(v.release, w.version); diff != 0 {", Rule: "D3-mirror", Site: "redHatVersion"},
 			{Name: "branch-sign-flipped", File: "semantic/version-pypi.go", Old: "	case pv.pre.number == nil:\n		return +1\n	case pw.pre.number == nil:\n		return -1", New: "	case pv.pre.number == nil:\n		return +1\n	case pw.pre.number == nil:\n		return +1", Rule: "D4-mirrored-branches", Site: "comparePre"},
+			{Name: "packagist-trailing-component-atoi", File: "semantic/version-packagist.go", Old: "		next := a[len(b)]\n\n		if _, err := convertToBigInt(next); err == nil {", New: "		next := a[len(b)]\n\n		if _, err := strconv.Atoi(next); err == nil {", Old2: "import (\n", New2: "import (\n	\"strconv\"\n", Rule: "D5-arbitrary-precision", Site: "comparePackagistComponents"},
 		},
 	})
 }
@@ -71,6 +72,8 @@ var auditedC07OK = map[string]auditEntry{
 }
 
 func runC07(p *Prog, r *Report) {
+	r.Rule("D5-arbitrary-precision", "numeric components are never parsed with fixed-width integer parsing")
+	c07Precision(p, r)
 	r.Rule("D1-bounds", "index/slice expressions proved in bounds or audited with invariant")
 	r.Rule("D1-discarded-ok", "no nil-on-failure result used with its ok/err discarded")
 	r.Rule("D1-assert", "no single-value type assertion")
@@ -624,4 +627,39 @@ func shortCircuitIf(b *ssa.BasicBlock) bool {
 		}
 	}
 	return false
+}
+
+
+// c07Precision: version components are arbitrarily long digit strings; every numeric test and
+// numeric comparison in package semantic goes through big.Int (convertToBigInt / SetString).
+// strconv.Atoi / ParseInt / ParseUint / ParseFloat fail (or lose precision) beyond 64 bits, so a
+// site that uses them classifies a long number differently from the sites that use big.Int: the same
+// component is a number at one position and a word at another, which breaks transitivity
+// (1.99999999999999999999 == 1, 1 < 1.5, 1.99999999999999999999 > 1.5).
+func c07Precision(p *Prog, r *Report) {
+	n, nbig := 0, 0
+	for _, fn := range p.FuncsIn("semantic") {
+		forEachInstr(fn, func(_ *ssa.BasicBlock, _ int, in ssa.Instruction) {
+			c := callOf(in)
+			if c == nil {
+				return
+			}
+			rf := refOf(c)
+			if rf.Pkg == "math/big" && rf.Name == "SetString" {
+				nbig++
+			}
+			if rf.Pkg != "strconv" {
+				return
+			}
+			switch rf.Name {
+			case "Atoi", "ParseInt", "ParseUint", "ParseFloat":
+				n++
+				r.Fail("D5-arbitrary-precision", fnKey(fn)+":strconv."+rf.Name, p.Pos(in.Pos()), "a version component is parsed with strconv."+rf.Name+": components longer than 64 bits are rejected here but accepted by the big.Int parsing used elsewhere, so long numeric components are classified inconsistently and the ordering stops being transitive")
+			}
+		})
+	}
+	if n == 0 {
+		r.OK("D5-arbitrary-precision", "semantic:no-fixed-width-parse", "-", "no strconv integer/float parsing in package semantic")
+	}
+	r.Instances("D5-arbitrary-precision", "big.Int parsing sites in package semantic", nbig, 3)
 }
